@@ -65,9 +65,62 @@ def _rand_case(draw):
     return {'k': 'rand', 'v': v, 'dt': dt, 'req': req, 'neg': neg, 'lookup': list(lookup_perm)}
 
 
+def _wide_cases(th):
+    # tens of thousands of distinct ids (tables of 2**15..2**16 entries and beyond), and vectors
+    # of several million spikes
+    for i, (nids, n) in enumerate([(40000, 90000), (300, 5000000)] +
+                                  ([(65536 + 9, 140000), (33000, 70000), (70000, 150000)]
+                                   if th else [])):
+        yield {'k': 'wide', 'nids': nids, 'n': n, 'seed': 70 + i}
+
+
+def _check_wide(case):
+    rs = np.random.RandomState(case['seed'])
+    nids, n = case['nids'], case['n']
+    ids = np.sort(rs.choice(np.arange(3 * nids), size=nids, replace=False))     # gaps
+    v = ids[rs.randint(0, nids, size=n)]
+    v[:nids] = ids                      # every id occurs
+    rs.shuffle(v)
+    arr = v.astype(np.int64 if case['seed'] % 2 else np.int32)
+    # unique / index-in-lookup against an unsorted lookup
+    u = must_return('_unique', _unique, arr)
+    same_array('_unique (%d distinct ids)' % nids, u, ids, key='unique', dtype=False)
+    lookup = rs.permutation(ids)
+    pos = np.empty(3 * nids, dtype=np.int64)
+    pos[lookup] = np.arange(nids)
+    out = must_return('_index_of', _index_of, arr, lookup)
+    same_array('_index_of (%d distinct ids, unsorted lookup)' % nids, out, pos[v],
+               key='index_of', dtype=False)
+    # grouped mean
+    vals = (np.arange(n) % 13) * 0.5
+    order = np.argsort(v, kind='stable')
+    cuts = np.r_[0, np.nonzero(np.diff(v[order]))[0] + 1, n]
+    exp = np.array([vals[order[a:b]].mean() for a, b in zip(cuts[:-1], cuts[1:])])
+    gm = must_return('grouped_mean', grouped_mean, vals, arr)
+    same_array('grouped_mean (%d distinct ids)' % nids, gm, exp, key='grouped_mean', dtype=False,
+               tol=(1e-12, 1e-12))
+    # selection of a set of clusters == sorted union of their groups
+    req = ids[::max(1, nids // 7)][:9].tolist() + [int(ids[-1]) + 1]
+    sel = must_return('_spikes_in_clusters', _spikes_in_clusters, arr, req)
+    same_array('_spikes_in_clusters (%d spikes)' % n, sel, np.nonzero(np.isin(v, req))[0],
+               key='sic', dtype=False)
+    groups = must_return('_spikes_per_cluster', _spikes_per_cluster, arr)
+    require(sorted(int(k) for k in groups) == ids.tolist(), '_spikes_per_cluster: keys are not '
+            'exactly the ids present', key='spc-keys')
+    for c in req[:-1]:
+        same_array('_spikes_per_cluster[%d]' % c, groups[c], np.nonzero(v == c)[0],
+                   key='spc-group', dtype=False)
+    total = sum(len(g) for g in groups.values())
+    require(total == n, '_spikes_per_cluster: groups do not partition the spikes',
+            key='spc-partition', observed=total, expected=n)
+
+
 def drivers(tier):
     th = tier == 'thorough'
     ds = [
+        dict(kind='enum', name='wide', exhaustive=False,
+             bound='40 000 distinct ids; 5 million spikes (thorough: also 33 000 / 65 545 / '
+                   '70 000 ids)', cases=lambda: _wide_cases(th)),
         dict(kind='enum', name='vec', exhaustive=True,
              bound='alphabet {0,1,3,7}, length<=%d, 4 dtypes' % (9 if th else 6),
              cases=lambda: _vec_cases(9 if th else 6)),
@@ -197,6 +250,8 @@ def check(case):
         _check_common(v, case['dt'], REQ_POOL, lookups)
     elif k == 'rand':
         _check_common(case['v'], case['dt'], [case['req'], []], [case['lookup']], case['neg'])
+    elif k == 'wide':
+        _check_wide(case)
     elif k == 'model':
         from . import c07_model
         return c07_model.check(case)
@@ -209,6 +264,8 @@ def classify(case, info):
     if k == 'model':
         from . import c07_model
         return c07_model.classify(case, info)
+    if k == 'wide':
+        return ['wide:%d-ids-%d-spikes' % (case['nids'], case['n'])], True
     v = case['v']
     labels = [k, 'dt:' + case['dt'], 'len:%s' % ('0' if not v else '1-8' if len(v) <= 8 else '9+')]
     present = sorted(set(v))
